@@ -15,7 +15,7 @@ PROP = 'C19'
 MANIFEST = dict(
     technique='TLA+ model (FsSem) of backend-independent filesystem semantics and of chains built by add_sys, checked by TLC; every file set of the model materialised on the four real backends and every add_sys transition replayed on a real FileSystemChain; all records validated by TLC (FsSemTrace)',
     category='model_checking',
-    text='FsSem defines existence, look-up and folder walk on file sets keyed by case-folded components (either slash), chain look-up by first member, member-relative de-duplicated walk, and add_sys(priority). TLC checks on all chains of up to 2 (thorough: 3-4) members over file sets of {a/x, a/X, ab/x, a/b/x, x, A/x} x prefixes {"", a, a/b}: walking "" lists everything, every walked name looks up to the listed file, first-member-wins, independence of members lacking the name, priority insertion, and that FileSystemChain\'s way of combining member lists implements the specified walk. Every file set of up to 3 names is built on VirtualFileSystem, ZipFileSystem (in memory), VPKFileSystem (VPK written by the harness\'s own encoder) and RawFileSystem (exact-case spellings only) and queried with all case x separator spellings and folders; every model transition is replayed on a real chain of mixed backends, the prefix of each member given in one of several spellings of the same component sequence (plain, trailing slash, leading dot-slash, doubled separator, backslash; free-form mixes in the random tier), with spies on the members, so that TLC judges routing, combination and each member\'s answers separately. Seeded random larger file sets, Unicode case folding, deeper prefixes and chains of up to 5 members extend the family.',
+    text='FsSem defines existence, look-up and folder walk on file sets keyed by case-folded components (either slash), chain look-up by first member, member-relative de-duplicated walk, and add_sys(priority). TLC checks on all chains of up to 2 (thorough: 3-4) members over file sets of {a/x, a/X, ab/x, a/b/x, x, A/x} x prefixes {"", a, a/b}: walking "" lists everything, every walked name looks up to the listed file, first-member-wins, independence of members lacking the name, priority insertion, and that FileSystemChain\'s way of combining member lists implements the specified walk. Every file set of up to 3 names is built on VirtualFileSystem, ZipFileSystem (in memory), VPKFileSystem (VPK written by the harness\'s own encoder) and RawFileSystem (exact-case spellings only) and queried with all case x separator spellings and folders; every model transition is replayed on a real chain of mixed backends, the prefix of each member given in one of several spellings of the same component sequence (plain, trailing slash, leading dot-slash, doubled separator, backslash; free-form mixes in the random tier), with spies on the members, so that TLC judges routing, combination and each member\'s answers separately. The model speaks of symbols (a/A, ab/AB, b/B, x/X equivalent pairs); single-backend family and transitions are replayed under three concretisations, plain ASCII and two whose case folding is not lower-casing (straße/STRASSE, ligature fi, capital final sigma, long s; folder and file names; VPK is ASCII-only by format), and TLC checks every concretisation admissible (injective, symbols equivalent iff texts case-fold equivalent). Seeded random larger file sets, such names in folders and prefixes, deeper prefixes and chains of up to 5 members extend the family.',
     design_ref='4 (C19)',
     note='The directory backend is bound for exact-case spellings on a case-sensitive filesystem (POSIX). VPK fixtures come from an encoder written from the format description, not from srctools.vpk. Trusts TLC and str.casefold as the fold table.',
 )
@@ -97,7 +97,11 @@ def run(tier: str, seed: int) -> int:
                 outs = [work.path(f'{cfg}.{part}.ndjson') for part in range(nproc)]
                 futs = [ex.submit(core.run_driver, 'c19_driver.py', ['edges', ef, outs[part], nproc, part], env=env)
                         for part in range(nproc)]
-                done = sum(json.loads(f.result().strip().splitlines()[-1]).get('edges_replayed', 0) for f in futs)
+                sts = [json.loads(f.result().strip().splitlines()[-1]) for f in futs]
+                done = sum(st.get('edges_replayed', 0) for st in sts)
+                for ci in (0, 1, 2):     # every concretisation of the symbols must have been replayed
+                    if sum(st.get(f'conc{ci}', 0) for st in sts) < len(edges) // 10:
+                        raise MachineryError(f'{cfg}: concretisation {ci} replayed on too few transitions')
                 if done != len(edges):
                     raise MachineryError(f'{cfg}: {done} of {len(edges)} transitions replayed')
                 edge_files += outs
@@ -115,11 +119,13 @@ def run(tier: str, seed: int) -> int:
         counts = [p for p in run_tlc('FsSem', 'FsSem_count.cfg', workers=1).prints if isinstance(p, dict) and p.get('tag') == 'COUNT']
         if not counts:
             raise MachineryError('FsSem_count.cfg printed no COUNT')
-        sets = {json.dumps(sorted(f[0] for f in rec['files'])) + rec['backend'] for rec in core.read_ndjson(single)}
-        if len(sets) != counts[0]['namesets'] * 4 or st1['records'] != len(sets):
-            raise MachineryError(f'coverage handshake failed: {len(sets)} (file set, backend) pairs logged, '
-                                 f'model has {counts[0]["namesets"]} file sets x 4 backends')
-        cov['handshake'] = {'file_sets': counts[0]['namesets'], 'backends': 4, 'model_edges': edge_total}
+        # (3 concretisations of the symbols; the VPK backend is ASCII-only and takes part in the first)
+        sets = {json.dumps([rec['ci'], sorted(rec['afiles']), rec['backend']]) for rec in core.read_ndjson(single)}
+        want_sets = counts[0]['namesets'] * (4 + 3 + 3)
+        if len(sets) != want_sets or st1['records'] != len(sets):
+            raise MachineryError(f'coverage handshake failed: {len(sets)} (concretisation, file set, backend) triples logged, '
+                                 f'model has {counts[0]["namesets"]} file sets x (4 + 3 + 3) backends')
+        cov['handshake'] = {'file_sets': counts[0]['namesets'], 'backend_concretisation_pairs': 10, 'model_edges': edge_total}
         cov['edges_replayed'] = edge_total
         # 4. TLC validates every record
         samples = []
@@ -138,6 +144,9 @@ def run(tier: str, seed: int) -> int:
         total = st['records']
         cov['states'] += st['states']
         cov['transitions'] += st['transitions']
+        bad = [m for m in allm if m['clause'].startswith('input.')]
+        if bad:
+            raise MachineryError(f'harness input not a concretisation of the model: {bad[0]["clause"]} in record {bad[0]["index"]}')
         cov['traces_validated_against_impl'] = total
         cov['records_validated'] = total
         cov['mismatches'] = len(allm)
